@@ -56,3 +56,20 @@ Theorem C12_nonvacuous :
   /\ get_excel_rows 60 (r1 :: repeat [] 61 ++ [r1]) = [r1].
 Proof. vm_compute. repeat split; reflexivity. Qed.
 Print Assumptions C12_nonvacuous.
+
+(* ---- the Markdown container (Model/Md.v): reading back a rendered table gives the grid that was rendered ---- *)
+Require Import PX.Model.Md PX.Proofs.Md PX.Proofs.PinsMd.
+(* For EVERY workbook of distinct, non-empty sheet names whose cells Markdown can carry (no pipe, line break, hash or backslash, no
+   white space at either end; empty cells allowed), the reader applied to the rendered text returns, sheet by sheet and in order,
+   exactly the rows that have a cell, every cell at its place (an empty cell as None) - the same grid a spreadsheet reader sees. *)
+Theorem C12_markdown_round_trip : forall W, W <> [] -> NoDup (map fst W) -> Forall sheet_ok W -> md_structure (render W) = map entry W.
+Proof. exact md_round_trip. Qed.
+Print Assumptions C12_markdown_round_trip.
+Theorem C12_markdown_nonvacuous : (ex_workbook <> [] /\ NoDup (map fst ex_workbook) /\ Forall sheet_ok ex_workbook) /\
+  md_structure (render ex_workbook) = map entry ex_workbook.
+Proof. exact (conj ex_workbook_ok (proj1 ex_workbook_read_back)). Qed.
+Print Assumptions C12_markdown_nonvacuous.
+Theorem C12_markdown_patterns_pinned : md_patterns_as_modelled.
+Proof. exact md_patterns_pinned. Qed.
+Print Assumptions C12_markdown_patterns_pinned.
+
